@@ -26,7 +26,8 @@ func init() {
 	small := []int{-1, 0, 1, 127, 128, 254, 255, 256, 257, -256, 65536}
 	props["C11"] = &propDef{
 		header:    "From BE Require Import Corr.CheckC11.",
-		rule:      "exhaustive boundary grid (doc in 24 boundary values x idx,size in 11 boundary values) plus seeded random triples, entry pairs, roaring pairs and casts; a case is non-trivial when the ids involved are accepted and non-zero (conj/rr), when both conjunction ids are < 2^60 (entry), always for casts; distinct = distinct input",
+		headers:   map[string]string{"E": "From BE Require Import Corr.CheckE2E.", "R": "From BE Require Import Corr.CheckRr."},
+		rule:      "exhaustive boundary grid (doc in 24 boundary values x idx,size in 11 boundary values) plus seeded random triples, entry pairs, roaring pairs and casts; through build and retrieval: every boundary id alone and together with the other in-range boundary ids as documents of 1..4 conjunctions (include-only, exclude-only, mixed) on the k-groups and compact indexes (Retrieve and the recording collector) and on the roaring index (Retrieve, RetrieveDocs, GetRawResult, WithHint with the extreme ids), ids just outside the range offered to AddDocument; a case is non-trivial when the ids involved are accepted and non-zero (conj/rr), when both conjunction ids are < 2^60 (entry), always for casts, when some retrieval returns a non-empty proper subset (through retrieval); distinct = distinct input",
 		shardSize: 1500,
 		gen: func(tier string, r *Rand, add func(in interface{})) {
 			for _, d := range docs {
@@ -38,6 +39,7 @@ func init() {
 				}
 				add(c11In{K: "cast", Doc: d})
 			}
+			c11Retrieval(tier, r, docs, add)
 			n := 3000
 			if tier == "thorough" {
 				n = 250000
@@ -75,6 +77,23 @@ func init() {
 			}
 		},
 		exec: func(raw json.RawMessage) (res execResult, err error) {
+			var probe struct {
+				Kind   string          `json:"kind"`
+				Fields json.RawMessage `json:"fields"`
+			}
+			json.Unmarshal(raw, &probe)
+			if probe.Kind != "" {
+				res, err = execE2E(raw)
+				res.Family = "E"
+				res.Dist = "retrieval/" + probe.Kind
+				return
+			}
+			if probe.Fields != nil {
+				res, err = execRr(raw)
+				res.Family = "R"
+				res.Dist = "retrieval/roaring"
+				return
+			}
 			var in c11In
 			if err = json.Unmarshal(raw, &in); err != nil {
 				return
@@ -126,5 +145,106 @@ func init() {
 			}
 			return
 		},
+	}
+}
+
+// documents carrying boundary ids through build and retrieval
+func c11Retrieval(tier string, r *Rand, ids []int64, add func(in interface{})) {
+	iv := func(v int) TV { return tvInt("int", int64(v)) }
+	ivs := func(vs ...int) TV {
+		l := make([]TV, len(vs))
+		for i, v := range vs {
+			l[i] = iv(v)
+		}
+		return tvSlice("[]int", l...)
+	}
+	// conjunction shapes over fields 0,1: include-only, exclude-only, mixed, two-field
+	shapes := func(k int) []eConj {
+		return [][]eConj{
+			{{{F: 0, Inc: true, V: ivs(1, k)}}},
+			{{{F: 0, Inc: false, V: ivs(2)}}},
+			{{{F: 0, Inc: true, V: ivs(1)}, {F: 1, Inc: false, V: ivs(3)}}, {{F: 1, Inc: true, V: ivs(k)}}},
+			{{{F: 0, Inc: true, V: ivs(k)}, {F: 1, Inc: true, V: ivs(1, 3)}}, {{F: 0, Inc: false, V: ivs(1)}}, {{F: 1, Inc: true, V: ivs(2)}}, {{F: 0, Inc: true, V: ivs(2)}, {F: 1, Inc: true, V: ivs(2)}}},
+		}[k%4]
+	}
+	queries := func() []eQuery {
+		var qs []eQuery
+		for _, a := range [][2]int{{1, 1}, {1, 3}, {2, 2}, {3, 3}, {4, 0}, {5, 1}, {0, 4}, {6, 6}, {7, 2}} {
+			qs = append(qs, eQuery{A: []eAssign{{F: 0, V: iv(a[0])}, {F: 1, V: iv(a[1])}}})
+		}
+		qs = append(qs, eQuery{A: []eAssign{{F: 0, V: ivs(1, 2, 4, 5)}}}, eQuery{A: []eAssign{{F: 1, V: ivs(1, 2, 3)}}}, eQuery{})
+		return qs
+	}
+	inRange := func(d int64, lim int64) bool { return d <= lim && d >= -lim }
+	for _, kind := range []string{"kgroups", "compact", "rr"} {
+		lim := int64(1<<43 - 1)
+		if kind == "rr" {
+			lim = 1<<55 - 1
+		}
+		emit := func(docs []eDoc) {
+			if kind != "rr" {
+				add(eCase{Kind: kind, Policy: "error", Docs: docs, Queries: queries()})
+				return
+			}
+			c := rCase{Fields: []rField{{F: 0, Cont: "default"}, {F: 1, Cont: "default"}}, Docs: docs}
+			for i, q := range queries() {
+				c.Ops = append(c.Ops, rOp{S: 0, Op: "reset"})
+				if i%4 == 3 {
+					var hs []int64
+					for _, d := range docs {
+						if len(hs) < 3 && d.ID < 0 {
+							hs = append(hs, d.ID)
+						}
+					}
+					hs = append(hs, 1<<55, -(1 << 55))
+					c.Ops = append(c.Ops, rOp{S: 0, Op: "hint", Hint: hs})
+				}
+				c.Ops = append(c.Ops, rOp{S: 0, Op: []string{"retrieve", "docs"}[i%2], A: q.A}, rOp{S: 0, Op: "raw"},
+					rOp{S: 1, Op: "reset"}, rOp{S: 1, Op: []string{"docs", "retrieve"}[i%2], A: q.A})
+			}
+			add(c)
+		}
+		// each boundary id alone (refused outside the range), next to an ordinary document
+		for k, d := range ids {
+			emit([]eDoc{{ID: d, Cons: shapes(k)}, {ID: 7, Cons: shapes(k + 1)}})
+		}
+		// all in-range boundary ids together
+		for rot := 0; rot < 4; rot++ {
+			var docs []eDoc
+			for k, d := range ids {
+				if inRange(d, lim) {
+					docs = append(docs, eDoc{ID: d, Cons: shapes(k + rot)})
+				}
+			}
+			emit(docs)
+		}
+		n := 20
+		if tier == "thorough" {
+			n = 600
+		}
+		for i := 0; i < n; i++ {
+			var docs []eDoc
+			used := map[int64]bool{}
+			for k := 2 + r.Intn(8); k > 0; k-- {
+				d := r.I64(-lim, lim)
+				switch r.Intn(4) {
+				case 0:
+					d = -lim + r.I64(0, 3)
+				case 1:
+					d = lim - r.I64(0, 3)
+				case 2:
+					d = r.I64(-5, 5)
+				}
+				if r.Chance(5) {
+					d = lim + r.I64(1, 3)
+				}
+				if used[d] {
+					continue
+				}
+				used[d] = true
+				docs = append(docs, eDoc{ID: d, Cons: shapes(r.Intn(64))})
+			}
+			emit(docs)
+		}
 	}
 }
